@@ -19,7 +19,8 @@ func init() {
 // the statistics and dictionaries of the built one.
 func vpH_C04_bigstats() {
 	n := []int{130, 300}[vpChoice("docs", 2)]
-	long := string(bytes.Repeat([]byte("n"), 200))
+	// a field name of 200 bytes, or of 57..64 bytes (a field record around 64 bytes)
+	long := string(bytes.Repeat([]byte("n"), []int{200, 57, 58, 59, 60, 61, 62, 63, 64}[vpChoice("name-length", 9)]))
 	var docs []*vpDoc
 	for d := 0; d < n; d++ {
 		doc := &vpDoc{fields: []*vpField{
